@@ -20,8 +20,8 @@ import time
 
 VERIF = os.path.dirname(os.path.dirname(os.path.abspath(__file__)))
 REPO = os.environ.get("GATERY_REPO", "/repo")
-BUILD = os.path.join(VERIF, ".build")
-LEAN = os.path.join(VERIF, "lean")
+BUILD = os.environ.get("VERIF_BUILD", os.path.join(VERIF, ".build"))
+LEAN = os.environ.get("VERIF_LEAN", os.path.join(VERIF, "lean"))
 ALLOWED_AXIOMS = {"propext", "Classical.choice", "Quot.sound"}
 FORBIDDEN = ["sorry", "admit", "native_decide", "bv_decide", "implemented_by", "unsafe ", "maxHeartbeats 0",
              "ofReduceBool", "reduceBool"]
